@@ -113,7 +113,11 @@ CLAIMED = {
                      'least-common-suffix in the oracle.' + PARTIAL,
                 technique='Lean 4 proof (refinement of the two-array merge walk to a tree-level lub, induction on fuel + list inductions) + correspondence + reference oracle', ref='6 C09'),
     'C10': dict(text='Proved: C10_chunks_flatten, C10_chunks_row_length, C10_chunks_get, C10_transpose_rows (value at (j,i) = value at (i,j)), '
-                     'C10_rejects, C10_wrong_count about the model of tree_transpose. transpose_map variants: correspondence + oracle.' + PARTIAL,
+                     'C10_rejects, C10_wrong_count about the model of tree_transpose; C10_transpose_tree (tree level, global namespace, no predicate: for an outer tree with '
+                     'm > 0 leaves, an inner tree with n > 0 leaves and any tree with m * n leaves the model of tree_transpose succeeds, its result has the shape '
+                     'inner-of-outer (STree.subst, i.e. compose) and its leaves are the columns of the m x n leaf matrix in order; uses unflatten_graft, '
+                     'Lemmas/GraftBuild.lean: what the stack machine builds when it is handed trees instead of leaves - mutual structural induction in '
+                     'parallel with the replacement-leaves proof). transpose_map variants: correspondence + oracle.' + PARTIAL,
                 technique='Lean 4 proof (list lemmas for chunk/zip) + correspondence', ref='6 C10'),
     'C11': dict(text='Proved: C11_roundtrip (fromPickle (toPickle s) = s for every sane, well-shaped treespec whose registrations resolve), '
                      'C11_missing_registration, generated obligations C11_covers_all_fields_* / C11_model_has_the_same_fields / C11_kind_numbering. '
